@@ -201,7 +201,7 @@ def run(ctx):
     for fn, st, ok in anchors:
         ctx.ob("C12.c", fn, au.short(st, 70), ok,
                "the conversion rate -> volume per step must use the restricted grid's step-length vector elementwise", node=st)
-    ctx.require(len(anchors) >= 4, "fewer than 4 anchored rate conversions found")
+    ctx.require(len(anchors) >= 4, "fewer than 4 anchored rate conversions found", rules=['C12.c'])
 
     # ================================================================= C12.f accumulated step lengths vs. a duration
     n_f = 0
@@ -227,4 +227,4 @@ def run(ctx):
                    "a running sum of step lengths is compared exactly with %s: in main time units in which a step is not exactly representable "
                    "(hours on a grid in days: 1/24) ten steps sum to slightly more than 10/24 and the tenth step drops out of the window - "
                    "the same storage with max_store_duration of 10 hours is worth 100 in 'h' and 'min' but 99 in 'd'" % au.short(other, 40), node=n)
-    ctx.require(n_f >= 1, "no comparison of accumulated step lengths with a duration found (max_store_duration window)")
+    ctx.require(n_f >= 1, "no comparison of accumulated step lengths with a duration found (max_store_duration window)", rules=['C12.f'])
